@@ -436,6 +436,8 @@ pub struct EvalCtx<'a> {
     pub ambiguous: std::cell::Cell<u32>,
     /// set when an expression referenced an unbound variable (outside the supported fragment)
     pub out_of_fragment: std::cell::Cell<u32>,
+    /// > 0 while a nested select is being evaluated (its values flow into the enclosing pattern)
+    pub nested: std::cell::Cell<u32>,
 }
 
 impl<'a> EvalCtx<'a> {
@@ -452,7 +454,7 @@ impl<'a> EvalCtx<'a> {
             let v = from_named.iter().filter(|g| data.named.contains_key(*g)).cloned().collect();
             (d, v)
         };
-        EvalCtx { data, default, visible, ambiguous: Default::default(), out_of_fragment: Default::default() }
+        EvalCtx { data, default, visible, ambiguous: Default::default(), out_of_fragment: Default::default(), nested: Default::default() }
     }
 }
 
@@ -810,6 +812,16 @@ pub fn eval_select_ext(q: &Select, ctx: &EvalCtx, active: &Active) -> (Vec<Vec<O
                                     None => ctx.out_of_fragment.set(ctx.out_of_fragment.get() + 1),
                                 }
                             }
+                            // A non-integer aggregate value that flows out of a nested select would be joined, grouped,
+                            // compared or aggregated again by its full-precision rendering, which depends on the order of
+                            // the floating-point summation: such cases are not judged. (At top level both sides are put
+                            // into one canonical rendering before they are compared.)
+                            if ctx.nested.get() > 0 && matches!(k, AggKind::Avg | AggKind::Sum) && !nums.is_empty() {
+                                let v = if *k == AggKind::Avg { nums.iter().sum::<f64>() / nums.len() as f64 } else { nums.iter().sum::<f64>() };
+                                if v != v.trunc() {
+                                    ctx.ambiguous.set(ctx.ambiguous.get() + 1);
+                                }
+                            }
                             match k {
                                 AggKind::Sum => Some(fmt_num(nums.iter().sum())),
                                 AggKind::Avg | AggKind::Min | AggKind::Max if nums.is_empty() => {
@@ -847,7 +859,9 @@ pub fn eval_select_ext(q: &Select, ctx: &EvalCtx, active: &Active) -> (Vec<Vec<O
 
 /// Rows of a nested select (LIMIT applied). Raises `ambiguous` when the cut is not determined.
 fn eval_select_rows(q: &Select, ctx: &EvalCtx, active: &Active) -> Vec<Vec<Option<String>>> {
+    ctx.nested.set(ctx.nested.get() + 1);
     let (mut rows, visible, keys) = eval_select_ext(q, ctx, active);
+    ctx.nested.set(ctx.nested.get() - 1);
     if let Some(l) = q.limit {
         if l < rows.len() {
             if l > 0 && !cut_is_determined(&rows, l, q, &keys, visible) {
